@@ -9,6 +9,8 @@ __pyvc_native_data__ = True
 
 SAFE_DECOS = list('klmstJKLMNOSTVW"$\'()/:;[\\]^_`{}~')     # note signifiers that do not combine with their neighbours
 REST_DECOS = list(";()'{}")
+COMPOUND_DECOS = ['&(', '&)', 'Ww', '[y', '(', ')', 'w', 'y', '[', 'L']   # combine with neighbours; the ones whose sorted
+# concatenation is re-tokenised differently (< > ? x xx yy L> J<) belong to the known finding extended_round_trip_combining_signifiers
 LETTERS = 'abcdefg'
 BAR_TYPES = ['', '', '', '||', '!|:', ':|!', ':|!|:', '|!']
 KERN_INTERPS = [['*clefG2', '*clefF4', '*clefC3', '*clefGv2', '*clefC1'], ['*k[]', '*k[f#]', '*k[b-e-]'], ['*M4/4', '*M3/4', '*M6/8'],
@@ -105,7 +107,7 @@ def scatter(rng, core_parts, decos):
     return out + ''.join(slots[-1])
 
 
-def gen_note(rng, plain=False, in_chord=False, accidentals=True):
+def gen_note(rng, plain=False, in_chord=False, accidentals=True, compound=False):
     dur = gen_duration(rng, allow_grace=not in_chord)
     pitch = gen_pitch(rng)
     acc = rng.choice([None, None, '#', '-', '##', '--', 'n', '#', '-']) if accidentals else None
@@ -120,6 +122,10 @@ def gen_note(rng, plain=False, in_chord=False, accidentals=True):
     # duration marks stay together (number, dots, grace mark): the grammar reads them as one duration
     core = [''.join(dur), pitch] + ([acc] if acc else [])
     text = scatter(rng, core, decos)
+    if compound and rng.random() < 0.5:
+        # signifiers that combine with their neighbours (outside the canonicity claim; the oracle fields are not valid for them)
+        extra = [rng.choice(COMPOUND_DECOS) for _ in range(rng.choice([1, 2, 3]))]
+        text = ''.join(extra[:1]) + text + ''.join(extra[1:])
     return NoteDesc(dur, pitch, acc, decos, text)
 
 
@@ -130,7 +136,7 @@ def gen_rest(rng, plain=False):
     return NoteDesc(dur, 'r', None, decos, text)
 
 
-def gen_kern_data(rng, spine, col, plain=False, chords=True, accidentals=True):
+def gen_kern_data(rng, spine, col, plain=False, chords=True, accidentals=True, compound=False):
     r = rng.random()
     if r < 0.12:
         return Cell('null', '.', spine, col)
@@ -138,9 +144,9 @@ def gen_kern_data(rng, spine, col, plain=False, chords=True, accidentals=True):
         n = gen_rest(rng, plain)
         return Cell('rest', n.text, spine, col, [n])
     if r < 0.42 and chords:
-        notes = [gen_note(rng, plain, True, accidentals) for _ in range(rng.choice([2, 2, 3]))]
+        notes = [gen_note(rng, plain, True, accidentals, compound) for _ in range(rng.choice([2, 2, 3]))]
         return Cell('chord', ' '.join(n.text for n in notes), spine, col, notes)
-    n = gen_note(rng, plain, False, accidentals)
+    n = gen_note(rng, plain, False, accidentals, compound)
     return Cell('note', n.text, spine, col, [n])
 
 
@@ -153,7 +159,7 @@ def gen_other_data(rng, htype, spine, col):
 
 
 def gen_score(rng, spines=None, measures=None, allow_splits=True, kern_only=False, plain=False, comments=True, opening_barline=None,
-              final_barline=None, signatures_first=True, mid_signatures=False, non_ascii=True, unknown_types=False, chords=True, accidentals=True):
+              final_barline=None, signatures_first=True, mid_signatures=False, non_ascii=True, unknown_types=False, chords=True, accidentals=True, compound=False):
     """A well-formed score.  The live spine paths are tracked here (the reference model): every cell records the cell above it on
     its own path (both branches of a split -> the split cell; merged sub-spines -> the first join cell of their spine)."""
     nsp = spines if spines is not None else rng.choice([1, 1, 2, 2, 3, 4])
@@ -246,7 +252,7 @@ def gen_score(rng, spines=None, measures=None, allow_splits=True, kern_only=Fals
 
             def data(sid, col):
                 if headers[sid] == '**kern':
-                    return gen_kern_data(rng, sid, col, plain, chords, accidentals)
+                    return gen_kern_data(rng, sid, col, plain, chords, accidentals, compound)
                 return gen_other_data(rng, headers[sid], sid, col)
             simple_row('data', data)
             if split_open is not False and (rng.random() < 0.6 or d == 2):
